@@ -243,7 +243,9 @@ impl<'g> FnCx<'g> {
         })?;
         let ty = result_ty.borrow().clone().ok_or("unsupported: value construct without a value")?;
         let t = self.fresh_tmp();
-        Ok(Val { steps: vec![Step::BindOk(t.clone(), format!("({})", text))], atom: t, prop: None, ty })
+        // the ascription gives the branches' `.error e` an expected type (it leaves no trace in the term)
+        let rt = self.u.resolve(&ty);
+        Ok(Val { steps: vec![Step::BindOk(t.clone(), format!("(({}) : Res {})", text, paren_atom(&lean_ty(&rt))))], atom: t, prop: None, ty })
     }
 
     fn path_expr(&mut self, p: &syn::ExprPath, expect: Option<&Ty>) -> R<Val> {
@@ -1867,12 +1869,19 @@ impl<'g> FnCx<'g> {
                     syn::Expr::Range(r) => r,
                     _ => unreachable!(),
                 };
+                // `a..b`, `..b` (from 0) and `a..` (to the length)
+                let zero: syn::Expr = syn::parse_str("0usize").unwrap();
                 let (lo, hi) = match (&r.start, &r.end, &r.limits) {
-                    (Some(lo), Some(hi), syn::RangeLimits::HalfOpen(_)) => (lo, hi),
+                    (Some(lo), Some(hi), syn::RangeLimits::HalfOpen(_)) => ((**lo).clone(), Some((**hi).clone())),
+                    (None, Some(hi), syn::RangeLimits::HalfOpen(_)) => (zero.clone(), Some((**hi).clone())),
+                    (Some(lo), None, _) => ((**lo).clone(), None),
                     _ => return unsupported("str::get range form", m.span()),
                 };
-                let lo = self.expr(lo, Some(&Ty::usize()))?;
-                let hi = self.expr(hi, Some(&Ty::usize()))?;
+                let lo = self.expr(&lo, Some(&Ty::usize()))?;
+                let hi = match hi {
+                    Some(h) => self.expr(&h, Some(&Ty::usize()))?,
+                    None => Val::pure(format!("{}.length", paren_atom(&a)), Ty::usize()),
+                };
                 self.u.unify(&lo.ty, &Ty::usize())?;
                 self.u.unify(&hi.ty, &Ty::usize())?;
                 steps.extend(lo.steps.clone());
